@@ -1,11 +1,9 @@
-import Model.Tensor
-open DV DV.Tensor
-def f0 : Tensor GaussInt := ⟨[2], [3], ⟨[2, 3], #[⟨1, 0⟩, ⟨0, 1⟩, ⟨2, 0⟩, ⟨0, 0⟩, ⟨1, -1⟩, ⟨3, 0⟩]⟩⟩
-def g0 : Tensor GaussInt := ⟨[3], [2, 2], ⟨[3, 2, 2],
-  #[⟨1, 0⟩, ⟨0, 0⟩, ⟨0, 1⟩, ⟨1, 0⟩, ⟨2, 0⟩, ⟨0, 0⟩, ⟨0, 0⟩, ⟨1, 1⟩, ⟨0, 0⟩, ⟨1, 0⟩, ⟨1, 0⟩, ⟨0, 0⟩]⟩⟩
-def s0 : Tensor GaussInt := ⟨[], [], ⟨[1], #[⟨0, 2⟩]⟩⟩
-#eval (thenCore f0 g0).entry ([1] ++ [1, 1])
-#eval (thenCore f0 g0).entry ([0] ++ [1, 1])
-#eval (f0.tensor s0).entry (([0] ++ []) ++ ([1] ++ []))
-#eval f0.dagger.entry ([1] ++ [0])
-#eval (thenCore f0 g0)
+import Props.C09
+open DV DV.C09
+#eval (match F0.call d0 with | .ok t => s!"ok {t.dom} {t.cod} {t.arr.data.toList.map (fun g => (g.re, g.im))}" | .error e => s!"err {e}")
+#eval (match F0.layerwise d0 with | .ok t => s!"ok {t.dom} {t.cod} {t.arr.data.toList.map (fun g => (g.re, g.im))}" | .error e => s!"err {e}")
+set_option maxRecDepth 100000 in
+example : (F0.call d0).toOption.isSome = true := by decide +kernel
+#print axioms functor_eval_eq_layers_partial
+#print axioms functor_eval_eq_layers_atomic
+#print axioms call_ofBox
